@@ -496,7 +496,14 @@ func (a *asm) stmt(level int, inLoop bool) {
 			a.depth -= 3
 		case 2:
 			a.small(8)
-			a.small(8)
+			if extended && R.Chance(25) { // offsets at the edge of the machine word: offset + length must not wrap
+				a.push([]*big.Int{
+					new(big.Int).SetUint64(^uint64(0)), new(big.Int).SetUint64(^uint64(0) - uint64(R.Intn(8))),
+					new(big.Int).Lsh(big.NewInt(1), 64), new(big.Int).Lsh(big.NewInt(1), 63), new(big.Int).Sub(two256, big.NewInt(1)),
+					new(big.Int).SetUint64(1 << 32)}[R.Intn(6)])
+			} else {
+				a.small(8)
+			}
 			a.small(128)
 			a.op(RETURNDATACOPY)
 			a.depth -= 3
@@ -634,7 +641,30 @@ func (a *asm) stmt(level int, inLoop bool) {
 			a.op(INVALID)
 		}
 	default:
-		if a.depth > 0 {
+		if extended && !inLoop && a.calls < 4 && R.Chance(50) {
+			// touch an account that is empty (a precompile, an address nobody has used), then ask for its code
+			// hash in the same transaction: an account that exists but is empty hashes to 0 (EIP-1052)
+			a.calls++
+			x := []common.Address{common.BigToAddress(big.NewInt(2)), common.HexToAddress("0xdead"), common.HexToAddress("0xbeef01"), common.BigToAddress(big.NewInt(4))}[R.Intn(4)]
+			kind := []byte{CALL, STATICCALL}[R.Intn(2)]
+			for k := 0; k < 4; k++ {
+				a.pushInt(0)
+			}
+			if kind == CALL {
+				a.pushInt(0)
+			}
+			a.push(new(big.Int).SetBytes(x.Bytes()))
+			a.op(GAS)
+			a.depth++
+			a.op(kind)
+			if kind == CALL {
+				a.depth -= 6
+			} else {
+				a.depth -= 5
+			}
+			a.push(new(big.Int).SetBytes(x.Bytes()))
+			a.op(EXTCODEHASH)
+		} else if a.depth > 0 {
 			a.op(POP)
 			a.depth--
 		}
@@ -669,6 +699,11 @@ func (a *asm) finish() {
 	default: // run off the end of the code
 	}
 }
+
+// extended: statement kinds added after the first seeds were collected are generated only in a phase of
+// their own that runs LAST, so that the random streams of the earlier phases (and what they are known to
+// find) stay exactly what they were
+var extended bool
 
 func program(R *vh.Rng, level, n int) []byte {
 	a := &asm{R: R}
@@ -778,7 +813,7 @@ func main() {
 	}
 	phase("arith")
 	// 2. whole programs: contracts calling each other
-	for q := nProg; q > 0; q-- {
+	oneProgram := func() {
 		ca := program(R, 0, R.Range(3, 40))
 		cb := program(R, 1, R.Range(2, 25))
 		cc := program(R, 2, R.Range(1, 20))
@@ -797,6 +832,9 @@ func main() {
 				R.Range(1, 300), R.Intn(3), R.Intn(20), cb, st(), cc, st(), R.Intn(3), program(R, 0, R.Range(2, 25)))
 		}
 		scenarioPlain(r, ref, line)
+	}
+	for q := nProg; q > 0; q-- {
+		oneProgram()
 	}
 	phase("programs")
 	// 3. precompiles: required gas and output on adversarial inputs
@@ -837,6 +875,15 @@ func main() {
 				precompile(r, ref, fmt.Sprintf("prun addr=%d input=%x", addr, in))
 			}
 		}
+	}
+	phase("precompiles")
+	// 4. whole programs again, with the statement kinds that were added later (see `extended`)
+	if nProg > 0 {
+		extended = true
+		for q := nProg / 2; q > 0; q-- {
+			oneProgram()
+		}
+		extended = false
 	}
 }
 
